@@ -104,3 +104,16 @@ add("C13",
     "and every target cell equals the user's function evaluated on that row's cells and the params.",
     "real-number model of floats; templates and target sets as listed in evidence",
     "DESIGN.md section 7 C13")
+add("C06",
+    "Symbolic runs of solve, simulate(vf_arr_list=solve(params)) and solve_and_simulate with the same symbolic params: the two "
+    "frames are equal cell by cell on all compatible paths, and for every period, agent and grid node g: state == g implies that "
+    "the simulated value equals the solved array entry at g's index in the documented layout.",
+    "real-number model of floats; templates and sizes as listed (TH fully discrete, all periods); quick tier: later periods of the "
+    "36-choice template only in thorough",
+    "DESIGN.md section 7 C06")
+add("C08",
+    "Pairs of symbolic runs of simulate on a batch and on its permutations, sub-batches, a batch with a duplicated agent and the "
+    "mapping with reversed key order: corresponding rows are decided equal for all continuous states, params and value arrays on "
+    "every pair of compatible paths; period-0 rows for stochastic models.",
+    "real-number model of floats; 2-3 agents, T<=2, templates as listed",
+    "DESIGN.md section 7 C08")
